@@ -98,6 +98,11 @@ static PDU* extra(int id, vh::Rng& rng, Entry& e) {
     case 141: { PDUCacher<UDP> c(UDP(7, 9)); c /= raw(rng, rng.range(1, 40)); return (eth0() / ip0() / c).clone(); }
     case 142: { ICMP ic(ICMP::TIME_EXCEEDED); ic.extensions().add_extension(some_ext(rng)); Bytes q = quoted4(rng, 4 * rng.range(0, 40)); ic.type(ICMP::ECHO_REPLY); return (eth0() / ip0() / ic / RawPDU(q.begin(), q.end())).clone(); }
     case 143: { ICMPv6 ic(ICMPv6::TIME_EXCEEDED); ic.extensions().add_extension(some_ext(rng)); Bytes q = quoted6(rng, 8 * rng.range(0, 14)); ic.type(ICMPv6::ECHO_REPLY); return (eth0() / ip60() / ic / RawPDU(q.begin(), q.end())).clone(); }
+    // ICMP / ICMPv6 errors with several extension objects, one of odd length in front of another (the structure's checksum covers all)
+    case 147: { ICMP ic(ICMP::TIME_EXCEEDED); ICMPExtension a(1, 1); a.payload(ICMPExtension::payload_type(3, 0xa1)); ICMPExtension b(2, 1); b.payload(ICMPExtension::payload_type(4 + rng.below(4), 0xb2)); ICMPExtension c(3, 2); c.payload(ICMPExtension::payload_type(1, 0xc3));
+                ic.extensions().add_extension(a); ic.extensions().add_extension(b); ic.extensions().add_extension(c); Bytes q = quoted4(rng, 4 * rng.range(25, 40)); return (eth0() / ip0() / ic / RawPDU(q.begin(), q.end())).clone(); }
+    case 148: { ICMPv6 ic(ICMPv6::TIME_EXCEEDED); ICMPExtension a(1, 1); a.payload(ICMPExtension::payload_type(5, 0xa1)); ICMPExtension b(2, 1); b.payload(ICMPExtension::payload_type(8, 0xb2));
+                ic.extensions().add_extension(a); ic.extensions().add_extension(b); Bytes q = quoted6(rng, 8 * rng.range(11, 14)); return (eth0() / ip60() / ic / RawPDU(q.begin(), q.end())).clone(); }
     // an RTP packet with padding whose payload is more than one layer; an AH whose ICV is not a multiple of 4 octets (with and without
     // a layer behind it): what size() promises and where each layer writes
     case 144: { RTP r; r.payload_type(96); r.padding_size((uint8_t)rng.range(1, 8)); return (eth0() / ip0() / UDP(5004, 5004) / r / raw(rng, rng.range(1, 12)) / raw(rng, rng.range(1, 12))).clone(); }
